@@ -127,11 +127,11 @@ theorem copyRev_block (off k : Nat) (out : Bytes) (h1 : 1 ≤ off) (h2 : off ≤
     rw [this, List.getElem?_eq_getElem (by omega)]
     simp
 
-theorem copyLoop_eq (off : Nat) (h1 : 1 ≤ off) (h4096 : off ≤ 4096) : ∀ (fuel len : Nat) (out : Bytes) (olen : Nat),
-    olen = out.length → off ≤ out.length → len ≤ fuel * off → 1 ≤ fuel →
+theorem copyLoop_eq (off : Nat) (h1 : 1 ≤ off) : ∀ (fuel len : Nat) (out : Bytes) (olen : Nat),
+    off ≤ out.length → len ≤ fuel * off → 1 ≤ fuel →
     copyLoop off fuel len out olen = .ok (copyRev off len out, olen + len)
-  | 0, _, _, _, _, _, _, hf => by omega
-  | fuel + 1, len, out, olen, ho, h2, hlen, _ => by
+  | 0, _, _, _, _, _, hf => by omega
+  | fuel + 1, len, out, olen, h2, hlen, _ => by
     simp only [copyLoop]
     split
     · rename_i hgt
@@ -140,15 +140,13 @@ theorem copyLoop_eq (off : Nat) (h1 : 1 ≤ off) (h4096 : off ≤ 4096) : ∀ (f
       obtain ⟨m, rfl⟩ : ∃ m, len = off + m := ⟨len - off, by omega⟩
       have hm : off + m - off = m := Nat.add_sub_cancel_left off m
       rw [hm, copyRev_add, hb]
-      rw [if_neg (by omega), if_neg (by omega)]
       cases fuel with
       | zero => exfalso; simp at hlen; omega
       | succ f =>
-        have ih := copyLoop_eq off h1 h4096 (f + 1) m (out.take off ++ out) (olen + off) (by simp; omega)
+        have ih := copyLoop_eq off h1 (f + 1) m (out.take off ++ out) (olen + off)
           (by simp; omega) (by rw [Nat.succ_mul] at hlen; omega) (by omega)
         rw [ih, Nat.add_assoc]
     · rename_i hle
-      rw [if_neg (by omega), if_neg (by omega)]
       rw [copyRev_block off len out h1 h2 (by omega), List.drop_take]
       have : off - (off - len) = len := by omega
       rw [this]
